@@ -20,7 +20,7 @@ def build(tier, seed):
         Ob('C16.general.lookup', u, 'C16/subst.c', 'h_gen_lookup', 'general substitution lookup over the assumed std::map contract: hit -> mapped value, miss -> the parameter', kind='K1', replay='C16'),
         Ob('C16.general.subst', u, 'C16/subst.c', 'h_gen_subst', 'general substitution: latest binding wins, other parameters unchanged', kind='K1', replay='C16'),
     ]
-    meta = dict(
+    meta = dict(sweep_family='C16', 
         functions_under_contract=['elem_ctor', 'elem_index', 'gen_index', 'gen_subst'],
         assumptions=['std::map<const Parameter*, const Expr*> behaves as a finite map (find / end / insert_or_assign / iterator ==, ->): single-witness abstraction in harness/C16/subst.c',
                      'exceptions: none can be raised by these functions (no throw in the lowered bodies)'])
